@@ -1191,10 +1191,11 @@ func genStore(c *Ctx, profile string) {
 						parts = append(parts, M{"ds": d, "ents": g.batch()})
 					}
 				}
-				if len(parts) > 1 && (profile == "c04" || profile == "c05") && c.Rng.Intn(4) == 0 {
+				if len(parts) > 1 && profile == "c05" && c.Rng.Intn(4) == 0 {
 					// a transaction the hub refuses at its LAST dataset (a null reference): nothing of it may stay, also not the
-					// parts for the datasets that came first (feed positions are compared by rank in these profiles: a refused
-					// write has drawn sequence numbers)
+					// parts for the datasets that came first (feed positions are compared by rank in this profile: a refused
+					// write has drawn sequence numbers; it has also drawn identifiers, which the next write of any kind commits —
+					// the histories of this profile have no restarts or dataset management in between)
 					last := parts[len(parts)-1]
 					last["ents"] = append(last["ents"].([]M), M{"id": g.ids[c.Rng.Intn(len(g.ids))], "deleted": false, "props": M{}, "refs": M{g.preds[0]: nil}})
 				}
